@@ -671,6 +671,7 @@ func check(prop, tier string) int {
 		known *KnownFinding
 	}
 	var rep []reported
+	var unreproduced []string
 	byRule := map[string]int{}
 	for _, fv := range merged.Violations {
 		if byRule[fv.V.Rule] >= 2 {
@@ -696,6 +697,14 @@ func check(prop, tier string) int {
 				merged.Inconclusive["violation reproduced only in a later replay attempt (depends on runtime map order in the code under test)"]++
 			}
 		}
+		if err == nil && !ok && (rc.cfg.ID == "C18" || rc.cfg.ID == "C19") {
+			// engine C runs real child processes, whose timing the simulator does not decide (scenario-replayable only): a
+			// violation that five fresh processes do not show again is set aside and the next candidate is tried; if none of
+			// the candidates can be shown again the check ends as inconclusive (exit 2), never as "held"
+			merged.Inconclusive["violation seen once with real child processes, not reproducible in five fresh processes"]++
+			unreproduced = append(unreproduced, fmt.Sprintf("%s/%s seed %d", fv.V.Prop, fv.V.Rule, fv.Seed))
+			continue
+		}
 		if err != nil || !ok {
 			fmt.Fprintf(os.Stderr, "verifctl: violation %s/%s (seed %d) did not reproduce from %s in a fresh process (err=%v) — harness trouble\n", fv.V.Prop, fv.V.Rule, fv.Seed, fv.Replay, err)
 			return 2
@@ -706,6 +715,10 @@ func check(prop, tier string) int {
 		byRule[fv.V.Rule]++
 		k := matchKnown(rc, fv)
 		rep = append(rep, reported{fv, k})
+	}
+	if len(rep) == 0 && len(unreproduced) > 0 {
+		fmt.Fprintf(os.Stderr, "verifctl: %d violations were seen but none could be reproduced in fresh processes (%s) — inconclusive\n", len(unreproduced), strings.Join(unreproduced, ", "))
+		return 2
 	}
 	nviol := 0
 	var violLines []string
